@@ -6,10 +6,10 @@ package query
 
 import (
 	"fmt"
-	"os"
-	"strconv"
 	"math/rand/v2"
+	"os"
 	"slices"
+	"strconv"
 	"strings"
 	"testing"
 
@@ -22,14 +22,15 @@ type vfStmt struct {
 	text   string
 	target *vfTable
 	// expected outcome
-	mustFail bool
-	mayFail  bool
-	count    int
-	newRows  []vfRow // table content after the statement if it succeeds
-	open     bool    // selection depends on an open comparison
-	note     string
-	projCols []string // update/delete through a project: the projected columns
-	movesKey bool     // update that changes key values of selected rows
+	mustFail    bool
+	mayFail     bool
+	count       int
+	newRows     []vfRow // table content after the statement if it succeeds
+	open        bool    // selection depends on an open comparison
+	note        string
+	projCols    []string // update/delete through a project: the projected columns
+	movesKey    bool     // update that changes key values of selected rows
+	readsTarget bool     // insert query whose source reads the target table
 }
 
 func vfKeyDups(t *vfTable, rows []vfRow) bool {
@@ -126,6 +127,7 @@ func (g *vfC24Gen) insertQuery(t *vfTable) *vfStmt {
 		src = qg.gen(1 + r.IntN(2))
 	}
 	st := &vfStmt{kind: "insertq", target: t}
+	st.readsTarget = vfHasNode(src, func(n *vfNode) bool { return n.op == "table" && n.name == t.name })
 	st.text = "insert " + src.operandText() + " into " + t.name
 	rel, openV, big := vfModelResult(g.d, src, false)
 	_, openR, _ := vfModelResult(g.d, src, true)
@@ -316,12 +318,12 @@ var vfC24Debug bool
 
 type vfC24Witness struct {
 	Seed, Shard, DB, Stmt int
-	Statement           string
-	Database            []string
-	Expected            any
-	Actual              any
-	Note                string
-	Stack               string `json:",omitempty"`
+	Statement             string
+	Database              []string
+	Expected              any
+	Actual                any
+	Note                  string
+	Stack                 string `json:",omitempty"`
 }
 
 func TestVerifC24(t *testing.T) {
@@ -431,7 +433,13 @@ func vfC24Case(rep *vk.Report, d *vfDB, dbi, si int, th *Thread) {
 		ut.Abort()
 		msg := fmt.Sprint(p)
 		rep.Seen("errors", vk.Trunc(vfNormMsg(msg), 50))
+		lbl := vfEngineFailLabel(msg, stack)
 		switch {
+		case st.kind == "insertq" && lbl != "":
+			// the source query itself failed inside the query engine (C22's subject)
+			w := wit("the source query of the insert failed in the query engine", nil, msg)
+			w.Stack = vk.Trunc(stack, 2500)
+			rep.Violate("C24/source-query-failed/"+lbl, key, w)
 		case st.mustFail || st.mayFail:
 			if !strings.Contains(msg, "duplicate key") {
 				w := wit("refused, but not with a duplicate key error", "duplicate key error", msg)
@@ -541,6 +549,9 @@ func (d *vfDB) dbHashNow() uint64 {
 
 // vfC24Diagnose recognises the analysed defects (known_findings.d/C24.jsonl) so they get their own class.
 func vfC24Diagnose(st *vfStmt, want, got []vfRow) string {
+	if st.kind == "insertq" && st.readsTarget {
+		return "insert-query-reads-its-target-table"
+	}
 	if st.kind != "update" {
 		return ""
 	}
